@@ -7,7 +7,7 @@ from typing import Dict, List, Union
 from pydantic import BaseModel, Field
 from typing_extensions import Annotated
 
-from pycfmodel.constants import AWS_NOVALUE, CONTAINS_CF_PARAM, CONTAINS_SSM_PARAMETER
+from pycfmodel.constants import AWS_NOVALUE, CONTAINS_SSM_PARAMETER, SUB_PLACEHOLDER
 from pycfmodel.model.base import FunctionDict
 from pycfmodel.utils import is_resolvable_dict
 
@@ -125,12 +125,17 @@ def resolve_sub(function_body, params: Dict, mappings: Dict[str, Dict], conditio
         replacements.update(resolve(custom_replacements, params, mappings, conditions))
     else:
         text = function_body
-    for match in CONTAINS_CF_PARAM.findall(text):
-        match_param = match[2:-1]  # Remove ${ and trailing }
-        if match_param in replacements:
-            value = resolve(replacements[match_param], params, mappings, conditions)
-            text = text.replace(match, str(value))
-    return text
+
+    def replace(match):
+        literal, name = match.group(1), match.group(2)
+        if literal:
+            return "${" + name + "}"
+        if name in replacements:
+            return str(resolve(replacements[name], params, mappings, conditions))
+        return match.group(0)
+
+    # single left-to-right pass: every placeholder is substituted exactly once and inserted text is never re-scanned
+    return SUB_PLACEHOLDER.sub(replace, text)
 
 
 def resolve_select(function_body, params: Dict, mappings: Dict[str, Dict], conditions: Dict[str, bool]):
